@@ -84,10 +84,77 @@ func (c *pathCtx) inconclusive(f string, a ...interface{}) {
 	c.inconcl = append(c.inconcl, fmt.Sprintf(f, a...))
 }
 
+// refine tightens the intervals of variables from a literal that now holds on
+// this path (var <=/</=/>=/> const, conjunctions, negations).  Intervals only
+// drive simplification (wrap elision, constant comparison), so using facts of
+// the current path condition is sound for every term built afterwards.
+func refine(t *Term, pos bool) {
+	switch t.op {
+	case "not":
+		refine(t.args[0], !pos)
+	case "and":
+		if pos {
+			for _, a := range t.args {
+				refine(a, true)
+			}
+		}
+	case "or":
+		if !pos {
+			for _, a := range t.args {
+				refine(a, false)
+			}
+		}
+	case "<", "<=", "=":
+		if t.args[0].sort != SInt {
+			return
+		}
+		a, b := t.args[0], t.args[1]
+		op := t.op
+		if !pos {
+			switch op {
+			case "<": // not(a<b) == b<=a
+				a, b, op = b, a, "<="
+			case "<=":
+				a, b, op = b, a, "<"
+			default:
+				return
+			}
+		}
+		// a op b
+		if a.op == "var" && b.hi != nil {
+			hi := b.hi
+			if op == "<" {
+				hi = new(big.Int).Sub(hi, big1)
+			}
+			if a.hi == nil || hi.Cmp(a.hi) < 0 {
+				a.hi = hi
+			}
+		}
+		if b.op == "var" && a.lo != nil {
+			lo := a.lo
+			if op == "<" {
+				lo = new(big.Int).Add(lo, big1)
+			}
+			if b.lo == nil || lo.Cmp(b.lo) > 0 {
+				b.lo = lo
+			}
+		}
+		if op == "=" {
+			if a.op == "var" && b.lo != nil && (a.lo == nil || b.lo.Cmp(a.lo) > 0) {
+				a.lo = b.lo
+			}
+			if b.op == "var" && a.hi != nil && (b.hi == nil || a.hi.Cmp(b.hi) < 0) {
+				b.hi = a.hi
+			}
+		}
+	}
+}
+
 func (c *pathCtx) assert(t *Term) {
 	if t.isTrue() {
 		return
 	}
+	refine(t, true)
 	c.solver.Assert(t)
 	if len(c.pcStr) < 200 {
 		s := t.String()
@@ -354,7 +421,10 @@ func (c *pathCtx) check(cond *Term, label string) {
 		return
 	}
 	if !c.violated("assert", label, "", Not(cond)) {
+		// not(cond) is unsatisfiable under the path condition: cond is implied,
+		// nothing to add and the path stays feasible
 		c.discharged++
+		return
 	}
 	if cond.isFalse() {
 		panic(pathEnd{"assertion failed: " + label})
